@@ -41,6 +41,19 @@ def run(cmd, cwd, env=None, timeout=3600):
 def main():
     prop, seed_dir, sid = sys.argv[1:4]
     suite = '--no-suite' not in sys.argv
+    # default: the pinned suite (the 103 stable_pass tests of /root/.vp/BASELINE.json; the other
+    # collected tests are deselected - several of them need > 10 min each on a loaded machine);
+    # --full runs everything and compares with the 188-test post-fix baseline
+    full = '--full' in sys.argv
+    tdir = os.path.dirname(os.path.abspath(__file__))
+    deselect = []
+    base_file = BASE
+    if not full:
+        base_file = os.path.join(tdir, 'pinned_stable_pass.txt')
+        for l in open(os.path.join(tdir, 'nonpinned_nodeids.txt')):
+            l = l.strip()
+            if l and not l.startswith('.py'):
+                deselect += ['--deselect', l]
     here = os.path.dirname(os.path.dirname(os.path.abspath(__file__)))
     wt = tempfile.mkdtemp(prefix='seedwt_')
     os.rmdir(wt)
@@ -74,16 +87,17 @@ def main():
                 junit = os.path.join(wt, '_junit.xml')
                 rc2, out2 = run([PY, '-m', 'pytest', '-q', '-p', 'no:cacheprovider',
                                  '--timeout=900', '--continue-on-collection-errors', '-n', os.environ.get('SEED_JOBS', '6'),
-                                 '--dist', 'loadfile', '--junitxml=' + junit], wt, timeout=5400)
+                                 '--dist', 'loadfile', '--junitxml=' + junit] + deselect, wt,
+                                timeout=5400)
                 passed = set()
                 if os.path.exists(junit):
                     for tc in ET.parse(junit).iter('testcase'):
                         name = tc.get('classname') + '::' + tc.get('name')
                         if not [c for c in tc if c.tag in ('failure', 'error', 'skipped')]:
                             passed.add(name)
-                base = set(open(BASE).read().split('\n')) - {''}
+                base = set(open(base_file).read().split('\n')) - {''}
                 missing = sorted(base - passed - KNOWN_FLAKY)
-                meta['ran'].append({'cmd': 'pytest -n 6 with the change', 'passed': len(passed),
+                meta['ran'].append({'cmd': 'pytest with the change ({})'.format('full suite, 188-test post-fix baseline' if full else 'pinned suite: the 103 stable_pass tests, other tests deselected'), 'passed': len(passed),
                                     'baseline': len(base), 'baseline_tests_missing': missing})
                 if missing:
                     # re-run the missing ones alone (load-related flakiness)
